@@ -266,7 +266,7 @@ def canon_arg_expr(prog, name, t):
         return "format!(\"#{}\", %s.id)" % name
     if k == "opt":
         inner = t[1]
-        if inner[0] == "str" and inner[1] in ("ustr",):
+        if inner[0] in ("str", "ostr") and inner[1] in ("ustr",):
             return "match &%s { Some(x) => format!(\"S({})\", %shexs(x)), None => \"N\".to_string() }" % (name, V)
         if inner[0] == "strs":
             fn = {"ustr": "strs8", "u16": "strs16", "utf8": "strsu"}[inner[1]]
